@@ -158,8 +158,8 @@ func (m *runtimeContextManager) PopContext() RuntimeContext {
 	// The parent becomes the current context before it is charged with what
 	// the child used: charging it may terminate it (its time may have run out).
 	*m = *m.parent
-	m.RequireCPU(mCopy.usedResources.Cpu)
 	m.RequireMem(mCopy.usedResources.Memory)
+	m.RequireCPU(mCopy.usedResources.Cpu)
 	if m.trackTime {
 		m.updateTimeUsed()
 	}
@@ -186,11 +186,11 @@ func (m *runtimeContextManager) requireCPU(cpuAmount uint64) {
 	if atLimit(cpuUsed, m.hardLimits.Cpu) {
 		m.TerminateContext("CPU limit of %d exceeded", m.hardLimits.Cpu)
 	}
+	m.usedResources.Cpu = cpuUsed
 	if m.trackTime && m.nextCpuThreshold <= cpuUsed {
 		m.nextCpuThreshold = cpuUsed + cpuThresholdIncrement
 		m.updateTimeUsed()
 	}
-	m.usedResources.Cpu = cpuUsed
 }
 
 func (m *runtimeContextManager) UnusedCPU() uint64 {
